@@ -523,8 +523,45 @@ pub fn exec(inp: &[u128]) -> (Vec<u128>, String, String) {
         // returned Ok; the case ends with a drain phase (sink ready, everything delivered, receiver pumping),
         // after which -- if no operation is pending -- every completed send must have arrived.
         // C03: after the drain phase no operation may still be pending.
+        let mut probe_completed = false;
+        // C03 leak probe: after the drain phase the receiver has consumed everything, so the credits the
+        // peer has granted leave the sender exactly `limit - (sent - granted)` to spend. A send of that
+        // many bytes must complete without any further credit.
+        {
+            let (running, chunk_alive, completed) = {
+                let s = w.status.lock().unwrap();
+                (s.running, s.chunk_alive, s.completed)
+            };
+            let pending_credits: u64 = {
+                let l = w.pair.net.b2a.0.lock().unwrap();
+                let fr: Vec<Bytes> = l.pending.iter().cloned().collect();
+                group(&fr).iter().map(|m| match &m.msg {
+                    MultiplexMsg::PortCredits { port, credits } if *port == w.port_a => *credits as u64,
+                    _ => 0,
+                }).sum()
+            };
+            let granted = w.credits_written - pending_credits;
+            let outstanding = w.sent_cost.saturating_sub(granted);
+            if !running && !chunk_alive && !w.finished && w.oracle.is_none() && (w.lim as u64) > outstanding {
+                let n = (w.lim as u64 - outstanding) as usize;
+                w.pair.net.a2b.set_sink_ready(true);
+                let _ = w.cmd_tx.send(Cmd::Send(vec![0x5a; n]));
+                w.settle().await;
+                let s = w.status.lock().unwrap();
+                probe_completed = s.completed == completed + 1;
+                if s.running || s.completed != completed + 1 {
+                    w.oracle = Some(format!(
+                        "FAIL: C03 credit leak: the peer has granted credit for {n} more bytes (buffer {}, sent {}, granted {}), but a send of {n} bytes is left waiting",
+                        w.lim, w.sent_cost, granted
+                    ));
+                }
+            }
+        }
         if w.pair.net.a2b.over_budget() || w.pair.net.b2a.over_budget() {
             w.oracle = Some("FAIL: C03 frame budget exceeded: an endpoint keeps emitting frames without making progress (livelock)".into());
+        }
+        if probe_completed {
+            w.status.lock().unwrap().completed_msgs.pop();
         }
         let st = w.status.lock().unwrap();
         let done = &st.completed_msgs;
